@@ -347,6 +347,14 @@ func sameValue(a, b ssa.Value) bool {
 	if a == b {
 		return true
 	}
+	// two loads of the same local variable
+	if ua, ok := a.(*ssa.UnOp); ok {
+		if ub, ok := b.(*ssa.UnOp); ok {
+			if _, isAlloc := ua.X.(*ssa.Alloc); isAlloc && ua.X == ub.X {
+				return true
+			}
+		}
+	}
 	oa, fa, ba, oka := core.FieldOf(a)
 	ob, fb, bb, okb := core.FieldOf(b)
 	if oka && okb && oa == ob && fa == fb {
